@@ -1547,7 +1547,7 @@ class WavSequenceFactory(ContinuousWaveform):
         self.reset()
 
     def reset(self):
-        self.queue = queue.BlockedRandomSignalQueue(self.fs)
+        self.queue = queue.BlockedRandomSignalQueue(fs=self.fs)
         metadata = [{'filename': fh.filename.name} for fh in self.wav_files]
         self.queue.extend(self.wav_files, np.inf, duration=self.duration, metadata=metadata)
 
